@@ -96,6 +96,10 @@ func aacInit(id int) *fmp4.InitTrack {
 
 // vodFMP4 registers a VOD fMP4 playlist serving the given init and segment bodies.
 func vodFMP4(site *origin.Site, plURL string, init []byte, segs [][]byte, tag string) {
+	vodFMP4PDT(site, plURL, init, segs, tag, false)
+}
+
+func vodFMP4PDT(site *origin.Site, plURL string, init []byte, segs [][]byte, tag string, pdt bool) {
 	pl := &origin.Playlist{URL: plURL, TargetDuration: 1, Type: "VOD"}
 	if init != nil {
 		pl.MapURI = tag + "_init.mp4"
@@ -105,7 +109,12 @@ func vodFMP4(site *origin.Site, plURL string, init []byte, segs [][]byte, tag st
 	for i, s := range segs {
 		u := fmt.Sprintf("%s_seg%d.bin", tag, i)
 		site.Files[origin.Resolve(plURL, u)] = s
-		pl.Segs = append(pl.Segs, origin.Seg{URI: u, DurNS: 80e6})
+		sg := origin.Seg{URI: u, DurNS: 80e6}
+		if pdt {
+			t := time.Date(2025, 1, 2, 3, 4, 5, 0, time.UTC).Add(time.Duration(i) * 80 * time.Millisecond)
+			sg.PDT = &t
+		}
+		pl.Segs = append(pl.Segs, sg)
 	}
 	pl.History = []origin.Window{{First: 0, Count: len(segs), Endlist: true}}
 	site.Playlists[plURL] = pl
@@ -193,6 +202,14 @@ func c13Cases(seed int64, tier string) []*c13Case {
 			vodFMP4(site, base+"s.m3u8", init, segs, "x")
 			return base + "s.m3u8"
 		})
+		// the date-time path of the processors (anchoring on the leading track) sees the same content;
+		// not for the bulk truncation / corruption families
+		if !strings.HasPrefix(name, "truncate/") && !strings.HasPrefix(name, "boxsize/") && !strings.HasPrefix(name, "random/") {
+			add(name+"+date-time", func(site *origin.Site, base string) string {
+				vodFMP4PDT(site, base+"s.m3u8", init, segs, "x", true)
+				return base + "s.m3u8"
+			})
+		}
 	}
 	gi, gs := goodFMP4()
 	single("fmp4/good", gi, gs)
